@@ -241,8 +241,10 @@ Fixpoint insert_by (less : fval -> fval -> bool) (x : fval) (l : list fval) : li
 Definition sort_by (less : fval -> fval -> bool) (l : list fval) : list fval :=
   fold_left (fun acc x => insert_by less x acc) l [].
 
-(* promql/quantile.go quantile(q, values) *)
-Definition quantile (q : fval) (vals : list fval) : fval :=
+(* promql/quantile.go quantile(q, values) BEFORE fix 023c7e876c: interpolates even when the
+   weight is 0, so an infinite upper neighbour yields Inf*0 = NaN (kept for
+   C29_quantile_rank_old_refuted) *)
+Definition quantile_old (q : fval) (vals : list fval) : fval :=
   match vals, q with
   | [], _ => FNaN
   | _, FNaN => FNaN
@@ -260,6 +262,28 @@ Definition quantile (q : fval) (vals : list fval) : fval :=
         let weight := (rank - inject_Z (qfloor rank))%Q in
         fadd (fmul (nth (Z.to_nat lower) s FNaN) (FFin (1 - weight)))
              (fmul (nth (Z.to_nat upper) s FNaN) (FFin weight))
+  end.
+
+(* promql/quantile.go quantile(q, values): `if weight == 0 { return values[lowerIndex].F }` *)
+Definition quantile (q : fval) (vals : list fval) : fval :=
+  match vals, q with
+  | [], _ => FNaN
+  | _, FNaN => FNaN
+  | _, FInf true => FInf true
+  | _, FInf false => FInf false
+  | _, FFin qq =>
+      if Qltb qq 0 then FInf true
+      else if Qltb 1 qq then FInf false
+      else
+        let s := sort_by heap_less vals in
+        let n := Z.of_nat (length vals) in
+        let rank := (qq * inject_Z (n - 1))%Q in
+        let lower := Z.max 0 (qfloor rank) in
+        let upper := Z.min (n - 1) (lower + 1) in
+        let weight := (rank - inject_Z (qfloor rank))%Q in
+        if Qeq_bool weight 0 then nth (Z.to_nat lower) s FNaN
+        else fadd (fmul (nth (Z.to_nat lower) s FNaN) (FFin (1 - weight)))
+                  (fmul (nth (Z.to_nat upper) s FNaN) (FFin weight))
   end.
 
 Inductive aggop :=
